@@ -75,7 +75,7 @@ def mk_ele(e, parent):
 def mk_comp(e, parent):
     n = N()
     n.kind = 'comp'
-    n.id = e.get('xid')
+    n.id = e.get('xid') or e.findtext('refdes')
     n.usage = g(e, 'usage')
     n.seq = int(g(e, 'seq'))
     n.de = g(e, 'data_ele')
@@ -143,7 +143,7 @@ def load_map(fname):
 def path(n):
     p = []
     while n is not None and n.kind != 'root':
-        p.append(n.id)
+        p.append(n.id or '?')
         n = n.parent
     return '/' + '/'.join(reversed(p))
 
